@@ -19,7 +19,6 @@ TRUSTED_BASE = [
     'harness/src/bin/h_intfns.rs and core/src/verif_hooks/intfns.rs (build raw numbers through Number::deserialize / BigUint variants, call the existing pub(crate) methods, read results back through serialize)',
     'hand-written models coq/Intfns/{Limbs,Arith,Text,Float}.v tied to core/src/num/{biguint,bigrat,real,complex}.rs and core/src/ast.rs only by this differential run',
     'big-integer add/sub/mul/divmod/gcd/cmp and decimal formatting are taken at value level in the model (property C01 / C02)',
-    'IEEE-754 binary64 semantics of the host (u64->f64, * + / floor ceil round, f64->u128 cast) as modelled in coq/Intfns/Float.v',
     'Python 3 int / fractions.Fraction as the check-side oracle; gen/c10.py',
 ]
 ASSUMPTIONS = ['64-bit target (usize = u64)', 'Rust char = Unicode scalar value']
@@ -285,13 +284,7 @@ def check(c):
               'non-trivial = multi-limb or non-canonical operand, shift across a limb boundary, n>20 for factorial-like, non-integer rounding argument, n>=1000 for words, n>=4 for roman, non-ASCII scalar; distinct by request line')
     ok = c.proof(['C10'], extra_targets=['Extract/XIntfns.vo'])
     if c.tier == 'thorough' and ok:
-        import subprocess, vlib
-        tracked = subprocess.run(['git', '-C', vlib.ROOT, 'ls-files', '--error-unmatch', 'coq/Properties/C10.v'],
-                                 stdout=subprocess.DEVNULL, stderr=subprocess.DEVNULL).returncode == 0
-        if tracked:
-            c.thorough_proof(['C10'])
-        else:
-            c.notes.append('thorough_proof skipped: coq/Properties/C10.v is not committed yet (fresh rebuild copies git-tracked files only)')
+        c.thorough_proof(['C10'])
     try:
         l1_limbs(c, r, quick)
         l1_uint_unary(c, r, quick)
@@ -299,6 +292,7 @@ def check(c):
         l1_complex(c, r, quick)
         l2_numeric(c, r, quick)
         l2_text(c, r, quick)
+        witnesses(c)
     except TooManyHangs as e:
         c.notes.append('check stopped early: %s' % e)
     if not quick:
@@ -568,8 +562,6 @@ def l1_rational(c, r, quick):
             ml.append(sx([Sym('q-bin'), BINOPS[op], a[1], b[1]]))
     impl = run_impl(c, il)
     model = c.model('intfns', ml)
-    npr_idx = [k for k, cs in enumerate(cases) if cs[1] == 'npr']
-    npr_known = dict(zip(npr_idx, c.model('intfns', [sx([Sym('known-npr'), cases[k][3][1]]) for k in npr_idx])))
     for k, ((kind, op, a, b), io, mo, line, mline) in enumerate(zip(cases, impl, model, il, ml)):
         i, m = impl_out(io), model_out(mo)
         x = a[2]
@@ -601,16 +593,11 @@ def l1_rational(c, r, quick):
             good = i[0] == 'err'
         else:
             good = (i[0] == 'err' and 'err' in sp[1]) or (iv is not None and iv in sp[1])
-        if not good and op == 'npr' and model_out(npr_known.get(k, '')) == ('val', 1) and i[0] == 'rat' and m[0] == 'ok' \
-                and m[1][2] and iv == Fraction(-m[1][1] if m[1][0] else m[1][1], m[1][2]) and c.known_finding('npr_negative_r'):
-            continue            # the listed defect, bug-compatible with the model
         if not good:
             viol(c, 'rational-' + op + '-wrong', {'kind': 'impl-vs-spec', 'layer': 'L1q', 'op': op, 'impl_line': line, 'model_line': mline,
                                                  'impl': io[:400], 'expected': repr(sp)[:400]})
             continue
         # --- model
-        if op == 'npr' and model_out(npr_known.get(k, '')) == ('val', 1):
-            continue            # listed class, implementation right: mirror not consulted
         if i[0] == 'err':
             same = m == ('err', i[1])
         elif i[0] == 'rat':
@@ -638,8 +625,8 @@ def l1_rational(c, r, quick):
 
 
 def l1_rounding(c, r, quick):
-    """floor / ceil / round on raw rationals: impl vs exact spec (Python and Coq round_spec), vs the f64 model,
-    vs the repaired integer version; known class round_via_f64"""
+    """floor / ceil / round on raw rationals: impl vs the exact value (Python and Coq round_spec) and vs the
+    model of BigRat::round_to_integer"""
     xs = near_integers(r, quick)
     cases = []
     for x in xs:
@@ -648,7 +635,7 @@ def l1_rounding(c, r, quick):
                 continue
             cases.append((mode, frac_rat(x, r, simplified=r.random() < 0.8), x))
     reach = c.impl('intfns', [sx([Sym('reach'), q]) for _, q, _ in cases])
-    il, ml, sl, kl, el = [], [], [], [], []
+    il, ml, sl = [], [], []
     keep = []
     for (mode, q, x), ro in zip(cases, reach):
         p = impl_out(ro)
@@ -660,51 +647,34 @@ def l1_rounding(c, r, quick):
         il.append(sx([Sym('u1'), mode, q]))
         ml.append(sx([Sym('q-round'), MODES[mode], rq]))
         sl.append(sx([Sym('spec-round'), MODES[mode], rq]))
-        kl.append(sx([Sym('known-float'), rq]))
-        el.append(sx([Sym('q-round-exact'), MODES[mode], rq]))
     impl = run_impl(c, il)
     model = c.model('intfns', ml)
     spec = c.model('intfns', sl)
-    known = c.model('intfns', kl)
-    exact = c.model('intfns', el)
-    shown = 0
-    for (mode, q, x), io, mo, so, ko, eo, line, mline, sline, eline in zip(keep, impl, model, spec, known, exact, il, ml, sl, el):
+    for (mode, q, x), io, mo, so, line, mline, sline in zip(keep, impl, model, spec, il, ml, sl):
         want = spec_round(mode, x)
         c.note_case(line, x.denominator != 1 or abs(x) >= (1 << 53), 'L1q-' + mode)
         i, m = impl_out(io), model_out(mo)
         # the two statements of the specification must agree with each other
         if model_out(so) != ('val', want):
             viol(c, 'round-spec-disagreement', {'kind': 'coq-spec-vs-python', 'layer': 'spec', 'line': sline, 'coq': so, 'python': str(want)}, no_input=True)
-        e = model_out(eo)
-        if not (e[0] == 'ok' and e[1][2] == 1 and (-e[1][1] if e[1][0] else e[1][1]) == want):
-            viol(c, 'round-exact-model-wrong', {'kind': 'repair-model-vs-spec', 'layer': 'spec', 'line': eline, 'coq': eo, 'python': str(want)}, no_input=True)
         iv = None
         if i[0] == 'rat':
             num, den = rep_val(i[2]), rep_val(i[3])
             iv = Fraction(-num if i[1] else num, den) if den else None
+        if iv != want:
+            viol(c, 'round-wrong', {'kind': 'impl-vs-spec', 'layer': 'L1q', 'op': mode, 'value': str(x), 'impl_line': line, 'model_line': mline,
+                                    'impl': io[:300], 'model': mo[:300], 'expected': str(want)})
+            continue
         if m[0] == 'ok':
             mn, mnum, mden = m[1]
-            same = i[0] == 'rat' and (mnum, mden) == (num, den) and (mn == i[1] or num == 0)
-            if not same and iv is not None and mden and iv == Fraction(-mnum if mn else mnum, mden):
-                c.repr_drift += 1           # same value, other numerator / denominator
+            same = (mnum, mden) == (num, den) and (mn == i[1] or num == 0)
+            if not same and mden and iv == Fraction(-mnum if mn else mnum, mden):
+                c.repr_drift += 1           # same value, other numerator / denominator / sign of zero
                 same = True
         else:
-            same = i[0] == 'err' and m == ('err', i[1])
-        in_class = model_out(ko) == ('val', 1)
-        if iv == want:
-            # inside the listed class the mirror is deliberately bug-compatible: not consulted when the
-            # implementation is right (e.g. after the repair)
-            if not same and not in_class:
-                viol(c, 'round-model-drift', {'kind': 'impl-vs-model', 'layer': 'L1q', 'impl_line': line, 'model_line': mline, 'impl': io[:300], 'model': mo[:300]}, no_input=True)
-            continue
-        # impl differs from the exact value
-        if in_class and same and c.known_finding('round_via_f64'):
-            if shown < 2:
-                c.sample({'layer': 'L1q', 'known': 'round_via_f64', 'op': mode, 'value': str(x)[:80], 'impl': str(iv)[:80], 'exact': str(want)[:80]})
-                shown += 1
-            continue
-        viol(c, 'round-wrong', {'kind': 'impl-vs-spec', 'layer': 'L1q', 'op': mode, 'value': str(x), 'impl_line': line, 'model_line': mline,
-                                'impl': io[:300], 'model': mo[:300], 'expected': str(want), 'in_known_class': in_class, 'bug_compatible_with_model': same})
+            same = False
+        if not same:
+            viol(c, 'round-model-drift', {'kind': 'impl-vs-model', 'layer': 'L1q', 'impl_line': line, 'model_line': mline, 'impl': io[:300], 'model': mo[:300]}, no_input=True)
 
 
 def l1_complex(c, r, quick):
@@ -750,8 +720,6 @@ def l1_complex(c, r, quick):
         unmodelled = m[0] == 'ok' and m[1] == [b'unmodelled']
         if unmodelled:
             continue
-        if op == 'npr' and b[0][1][0] == 1 and i[0] == 'err' and m[0] == 'ok':
-            continue            # negative r rejected (class npr_negative_r repaired): mirror not consulted
         if i[0] == 'err':
             same = m == ('err', i[1])
         elif i[0] == 'rat':
@@ -863,14 +831,8 @@ def l2_numeric(c, r, quick):
         elif op in MODES or op == 'round-expr':
             mode = op if op in MODES else e[:e.index('(')].strip()
             ml.append(sx([Sym('q-round'), MODES[mode], rr[0]])); mi.append(k)
-            kl.append(sx([Sym('known-float'), rr[0]])); ki.append(k)
     model = dict(zip(mi, c.model('intfns', ml)))
-    known = dict(zip(ki, c.model('intfns', kl)))
-    # second operand of the nPr domain cases: is it in the listed class (negative integer r)?
-    nk = [k for k, (op, e, args, vals) in enumerate(cases) if op == 'domain' and e.startswith('5 nPr ') and raw_of(args[0]) is not None]
-    npr_known = dict(zip(nk, c.model('intfns', [sx([Sym('known-npr'), raw_of(cases[k][2][0])]) for k in nk])))
     mline = dict(zip(mi, ml))
-    shown = 0
     for k, ((op, e, args, vals), io, line) in enumerate(zip(cases, impl, lines)):
         i = impl_out(io)
         big = vals is not None and op != 'round-expr' and any(abs(v) >= W or v.denominator != 1 for v in vals)
@@ -881,8 +843,6 @@ def l2_numeric(c, r, quick):
             continue
         if op == 'domain':
             if i[0] != 'err':
-                if k in npr_known and model_out(npr_known[k]) == ('val', 1) and c.known_finding('npr_negative_r'):
-                    continue
                 viol(c, 'domain-error-missing', {'kind': 'impl-vs-spec', 'layer': 'L2', 'expr': e, 'impl': io[:300], 'expected': 'an error'})
             continue
         if op in MODES or op == 'round-expr':
@@ -895,18 +855,10 @@ def l2_numeric(c, r, quick):
             same = None
             if m[0] == 'ok' and got is not None and m[1][2]:
                 same = Fraction(-m[1][1] if m[1][0] else m[1][1], m[1][2]) == got
-            in_class = model_out(known.get(k, '')) == ('val', 1)
-            if got == want:
-                if same is False and not in_class:
-                    viol(c, 'round-model-drift', {'kind': 'impl-vs-model', 'layer': 'L2', 'expr': e, 'impl': io[:300], 'model_line': mline.get(k), 'model': model.get(k)}, no_input=True)
-                continue
-            if in_class and same and c.known_finding('round_via_f64'):
-                if shown < 2:
-                    c.sample({'layer': 'L2', 'known': 'round_via_f64', 'expr': e[:120], 'impl': i[1][:80] if i[0] == 'ok' else io[:80], 'exact': str(want)[:80]})
-                    shown += 1
-                continue
-            viol(c, 'round-wrong', {'kind': 'impl-vs-spec', 'layer': 'L2', 'expr': e, 'impl': io[:300], 'expected': str(want), 'in_known_class': in_class,
-                                    'bug_compatible_with_model': same, 'model_line': mline.get(k)})
+            if got != want:
+                viol(c, 'round-wrong', {'kind': 'impl-vs-spec', 'layer': 'L2', 'expr': e, 'impl': io[:300], 'expected': str(want), 'model_line': mline.get(k)})
+            elif same is False:
+                viol(c, 'round-model-drift', {'kind': 'impl-vs-model', 'layer': 'L2', 'expr': e, 'impl': io[:300], 'model_line': mline.get(k), 'model': model.get(k)}, no_input=True)
             continue
         # integer-valued operations
         if op == 'factorial':
@@ -1068,6 +1020,21 @@ def l2_text(c, r, quick):
         if model_out(o) != want:
             viol(c, 'char-model-wrong', {'kind': 'model-vs-spec', 'layer': 'model', 'value': v, 'model': o}, no_input=True)
     c.sample({'layer': 'L2', 'expr': '20002 to roman', 'impl': next((t for v, t in ok_texts if v == 20002), '?')})
+
+
+def witnesses(c):
+    """the witnesses of the repaired defects stay in the corpus: a regression is a VIOLATION"""
+    import glob, os, vlib
+    for f in sorted(glob.glob(os.path.join(vlib.ROOT, 'corpus', 'C10', 'witness_*.json'))):
+        w = json.load(open(f))
+        outs = run_impl(c, [sx([Sym('eval'), e]) for e in w['exprs']])
+        for e, want, o in zip(w['exprs'], w['expected'], outs):
+            i = impl_out(o)
+            c.note_case('witness-' + e, True, 'L2-witness')
+            good = i[0] == 'err' if want == 'ERROR' else i == ('ok', want)
+            if not good:
+                viol(c, 'regression-of-fixed-finding', {'kind': 'impl-vs-spec', 'layer': 'L2', 'witness_file': os.path.basename(f), 'finding': w.get('name'),
+                                                        'expr': e, 'impl': o[:300], 'expected': want[:300]})
 
 
 def replay(c, obj):
